@@ -1001,6 +1001,12 @@ class err_ele(err_node):
             self.ele_pos = map_node.seq
             self.subele_pos = None
         self.repeat_pos = None
+        # the segment the element belongs to: the header and the trailer of a
+        # loop keep their element errors on one node
+        seg_node = map_node.parent
+        while seg_node is not None and not seg_node.is_segment():
+            seg_node = seg_node.parent
+        self.seg_id = seg_node.id if seg_node is not None else None
 
         #self.bad_val = bad_val
         self.id = 'ELE'
@@ -1014,6 +1020,14 @@ class err_ele(err_node):
         Params:     visitor - ref to visitor class
         """
         visitor.visit_ele(self)
+
+    def get_error_list(self, seg_id, pre=False):
+        """
+        Errors of this element, if it is an element of segment seg_id
+        """
+        if self.seg_id is not None and seg_id != self.seg_id:
+            return []
+        return self.errors
 
     def add_error(self, err_cde, err_str, bad_value):
         """
